@@ -216,6 +216,9 @@ Universe_C20 ==
                                "partial_kw", "partial_pos", "overwrite_kw", "overwrite_pos"}}
             \cup {<<k, i>> : k \in {"stop", "stop_pos", "stop_overwrite"}, i \in {1, 2, 5, 6, 9, 17}}}
 
+Universe_C20b ==   \* the callback stops exactly at a second-order-correction / geometry / trust-region evaluation
+  SocRich({"default"}, {<<k, i>> : k \in {"stop_soc", "stop_geo", "stop_tr"}, i \in {0, 1, 2}})
+
 (* ---- C03 / C18 / C12 (trace part): ordinary runs of all kinds ---------- *)
 Universe_Runs ==
   {D(n, Const(n, bpk), x0, sc, obj, flt, lin, nl, "Bounds", opt, NoCb) :
@@ -267,7 +270,7 @@ Universe(id) ==
     [] id = "C07" -> Universe_C07
     [] id = "C08" -> Universe_C08
     [] id = "C09" -> Universe_C09
-    [] id = "C20" -> Universe_C20
+    [] id = "C20" -> Universe_C20 \cup Universe_C20b
     [] id = "Runs" -> Universe_Runs
 
 Emit == LET U == {d \in Universe(IOEnv.UNIVERSE_ID) : WellFormed(d)}
